@@ -1,14 +1,22 @@
-"""Development check of the shared LMDB model (not a property; not in the manifest)."""
+"""Development check of the LMDB query path (shared model KVM + the LMDB halves of C01/C02/C11/C12; not in the manifest).
+The property checks C01/C02/C11/C12 call kvm.suites_c01 ... suites_c12; here everything runs together so that the query-path
+model, its theorems (coq/Props/KVM.v) and the executable statements can be checked on their own: ./check KVM."""
 from .. import kvm
 
-ASSUMPTIONS = ["py-lmdb behaves like shims/lmdb.py (ordered map, cursor conventions)"]
+ASSUMPTIONS = [
+    "py-lmdb behaves like shims/lmdb.py (ordered map, cursor conventions)",
+    "the store is coherent (KVM.Coherent.Coherent): proved as an invariant of every writer history by KVW, taken as hypothesis by the query theorems",
+    "stored events have no empty tag (Event.verify indexes tag[0] of every tag: admission rejects them) - hypothesis tags_ok",
+    "filters are what NostrQuery.model_validate returns (wf_filter: ids/authors >= 64 hex digits, one-character tag names, since/until in range); full-text search (NIP-50) disabled",
+    "ids_desc: the compiled keys of the ids of a filter are strictly descending (true of sorted 64-digit ids; an id of odd length > 64 next to its own 64-digit prefix is outside the theorem, inside the correspondence)",
+    "the order in which a chained multi-index plan yields its ids (iteration order of a Python set) is unspecified: compared as sets",
+]
 
 
 def run(tier, seed):
-    # correspondence of the shared model only; the executable statements of C01/C02/C11/C12 (kvm.suites_c01 ... suites_c12)
-    # run under the property checks, where their known findings are listed
-    return [kvm.suite_scan(tier, seed), kvm.suite_multi(tier, seed), kvm.suite_plan(tier, seed), kvm.suite_answer(tier, seed),
-            kvm.suite_hostile(tier, seed)]
+    return [kvm.suite_corpus(tier, seed), kvm.suite_scan(tier, seed), kvm.suite_multi(tier, seed), kvm.suite_plan(tier, seed),
+            kvm.suite_answer(tier, seed), kvm.suite_hostile(tier, seed), kvm.suite_oracle(tier, seed),
+            kvm.suite_frame(tier, seed), kvm.suite_monotone(tier, seed), kvm.suite_union(tier, seed)]
 
 
 def replay(payload):
